@@ -51,6 +51,46 @@ theorem c08_spec_conserved (outs : List Bool) (msg : Message) (etched : Option R
     sumFrom (Spec.allocate outs msg etched r u0).out 0 outs.length + (Spec.allocate outs msg etched r u0).burned = u0 :=
   allocate_conserves outs msg etched r u0 hwf
 
+/-- **One transaction of the MODEL conserves every rune.**  Whenever `indexRunesTx` returns, for
+every rune `r`: what the transaction's outputs hold afterwards plus what it adds to the block's
+burn accumulator equals what its inputs held plus the open mint plus the premine
+(`txUnallocated`) — for any edict list, pointer, cenotaph, OP_RETURN layout.  (`hwf`: the runestone
+is well formed, which `Runestone::decipher` guarantees; txid without rows; accumulator without
+repeated ids.) -/
+theorem c08_tx_conserved (st : State) (blk : Block) (i : Nat) (tx : Tx) (bb : Balances)
+    (st' : State) (bb' : Balances) (evs : List Event)
+    (hok : indexRunesTx st blk i tx bb = .ok (st', bb', evs))
+    (hfresh : ∀ v, AL.get st.balances ⟨tx.txid, v⟩ = none) (hbb : (keys bb).Nodup)
+    (hwf : WellFormed tx.outputs.length (Message.ofArtifact tx.artifact)) (r : RuneId) :
+    sumFrom (fun v => lk ((AL.get st'.balances ⟨tx.txid, v⟩).getD []) r) 0 tx.outputs.length + lk bb' r
+      = lk bb r + txUnallocated st blk i tx r := by
+  obtain ⟨h1, h2, _⟩ := indexRunesTx_refines hok hfresh hbb r
+  have hc := allocate_conserves (outsOf tx) (Message.ofArtifact tx.artifact)
+    ((txEtched (spent st tx) blk i tx).map (·.1)) r (txUnallocated st blk i tx r) (by simpa [outsOf] using hwf)
+  have hs : sumFrom (fun v => lk ((AL.get st'.balances ⟨tx.txid, v⟩).getD []) r) 0 tx.outputs.length
+      = sumFrom (txSpec st blk i tx r).out 0 tx.outputs.length :=
+    sumFrom_congr _ _ _ _ (fun v _ hv => h1 v (by omega))
+  rw [hs, h2]
+  have : (outsOf tx).length = tx.outputs.length := by simp [outsOf]
+  rw [this] at hc
+  unfold txSpec
+  omega
+
+/-- A transaction whose inputs hold nothing of `r`, which neither mints nor etches `r`, cannot make
+`r` appear anywhere: "rune balances appear only through premine and mints". -/
+theorem c08_nothing_from_nothing (st : State) (blk : Block) (i : Nat) (tx : Tx) (bb : Balances)
+    (st' : State) (bb' : Balances) (evs : List Event)
+    (hok : indexRunesTx st blk i tx bb = .ok (st', bb', evs))
+    (hfresh : ∀ v, AL.get st.balances ⟨tx.txid, v⟩ = none) (hbb : (keys bb).Nodup)
+    (hwf : WellFormed tx.outputs.length (Message.ofArtifact tx.artifact)) (r : RuneId)
+    (hz : txUnallocated st blk i tx r = 0) :
+    sumFrom (fun v => lk ((AL.get st'.balances ⟨tx.txid, v⟩).getD []) r) 0 tx.outputs.length = 0 ∧
+    lk bb' r = lk bb r := by
+  have := c08_tx_conserved st blk i tx bb st' bb' evs hok hfresh hbb hwf r
+  obtain ⟨_, h2, _⟩ := indexRunesTx_refines hok hfresh hbb r
+  rw [hz] at this
+  omega
+
 /-- **The model's edict loop conserves every rune.**  Whenever `applyEdicts` returns, for every
 rune the unallocated amount plus the amounts allocated to the outputs is unchanged — each
 `allocate` moves units from one side to the other (any number of edicts, repeated ids, `0:0`,
